@@ -81,6 +81,21 @@ fn main() {
             eprintln!("cannot parse {}: {e}", args[3]);
             std::process::exit(2)
         });
+        if v["kind"] == "stratum-prefix" {
+            // a failure that depends on what was evaluated before: re-run that stratum from its seed up to the case
+            // (same tier and seed as the original run; all other generated strata are skipped)
+            std::env::set_var("VERIF_ONLY_STRATUM", v["stratum"].as_str().unwrap_or(""));
+            std::env::set_var("VERIF_MAX_CASES", v["cases"].as_u64().unwrap_or(1).to_string());
+            // one worker thread: the history of the failing case is then exactly the cases before it
+            std::env::set_var("RAYON_NUM_THREADS", "1");
+            let tier = if v["tier"] == "thorough" { Tier::Thorough } else { Tier::Quick };
+            let seed = v["seed"].as_u64().unwrap_or(seed);
+            let mut ctx = Ctx::new(id, tier, seed);
+            ctx.strict = true;
+            ctx.no_evidence = true;
+            guard(|| run(&ctx));
+            std::process::exit(ctx.finish());
+        }
         guard(|| replay(&ctx, &v));
         ctx.finish()
     } else {
